@@ -159,11 +159,13 @@ def spectrumAt (pol : Bool) (proj : List Nat) (snps : List Snp) (idx : List Nat)
 
 def isCorner (proj idx : List Nat) : Bool := idx.all (· == 0) || idx == proj
 
-/-- mask of the result: corners if requested; after folding also the mirror image of the mask and the folded-out half -/
+/-- mask of the result: corners if requested; after folding the mask, its mirror image and the folded-out half, and
+    the corners again if `Spectrum.fold` builds its result with `mask_corners` on (generated `foldRemasksCorners`) -/
 def maskAt (pol maskCorners : Bool) (proj idx : List Nat) : Bool :=
   let c := maskCorners && isCorner proj idx
   if pol then c
   else c || (maskCorners && isCorner proj (mirror proj idx)) || decide (natSum proj / 2 < natSum idx)
+        || (foldRemasksCorners && isCorner proj idx)
 
 /-- contribution of one SNP (what the count dictionary groups) -/
 def contribAt (pol : Bool) (proj : List Nat) (s : Snp) (idx : List Nat) : Rat :=
@@ -309,9 +311,13 @@ def chunksOfChrom (size : Nat) (l : List Snp) : List (List Snp) :=
 def fragment (size : Nat) (snps : List Snp) : List (List Snp) :=
   (chroms snps).flatMap fun c => chunksOfChrom size (snps.filter fun s => s.chrom == c)
 
-/-- one bootstrap replicate: the chosen chunk spectra added up -/
+/-- one bootstrap replicate from the chunks' count dictionaries: the chosen chunk spectra added up -/
+def bootAtCd (pol : Bool) (proj : List Nat) (cds : List CountDict) (choice : List Nat) (idx : List Nat) : Rat :=
+  sumMap choice fun c => specAt pol proj (cds.getD c []) idx
+
+/-- one bootstrap replicate: `functools.reduce(operator.add, [spectra[c] for c in choice])` -/
 def bootAt (pol : Bool) (proj : List Nat) (chunks : List (List Snp)) (choice : List Nat) (idx : List Nat) : Rat :=
-  sumMap choice fun c => spectrumAt pol proj (chunks.getD c []) idx
+  bootAtCd pol proj (chunks.map countDict) choice idx
 
 /-! ### statistics from a one-dimensional spectrum `f : Nat → Rat` with sample size `n` -/
 
